@@ -25,6 +25,7 @@ func genGeneric(c *Ctx) {
 func genFormat(c *Ctx) {}
 
 func genMocks(c *Ctx) {
+	parseTable(c)
 	gen.CheckNoGlobalWrites(c.Run, c.Prog, "G-FRAME/global-state")
 	gen.CheckPure(c.Run, c.Prog, "G-PURE/render-helpers")
 	// the import registry is the one piece of state shared by the mocks of a run
